@@ -166,10 +166,10 @@ def restore_probe(v, tier, seed, name="python_state_restore"):
     return nviol
 
 
-def gen_py_sim(rng, kind="py"):
+def gen_py_sim(rng, kind="py", p_clock=0.0):
     """a seeded simulation scenario whose processes are Python objects of the given vscript class"""
     from . import sim_suite
-    lines = sim_suite.gen_scenario(rng, dict(p_clock=0, p_rand=0, procs=(1, 3), mc=dict(proc_kind=kind, json_payloads=True, p_timer=0.35, p_cancel=0.1,
+    lines = sim_suite.gen_scenario(rng, dict(p_clock=p_clock, p_rand=0, procs=(1, 3), mc=dict(proc_kind=kind, json_payloads=True, p_timer=0.35, p_cancel=0.1,
                                                                                       p_send=0.3, p_local=0.25, record=0.5)))
     lines = [l.replace(":$", ':="e"') if l.startswith("rule") and l.split()[3].startswith("T:") else l for l in lines]
     # payloads of local messages must be JSON texts for a Python process
@@ -194,7 +194,7 @@ def sim_twin(v, tier, seed, name="python_sim_twin", n_quick=120, n_thorough=2000
     n = n_quick if tier == "quick" else n_thorough
     scen = []
     for i in range(n):
-        lines = gen_py_sim(rng)
+        lines = gen_py_sim(rng, p_clock=0.3)     # `K:` actions report the clock the framework handed to the handler
         scen.append((f"sp{i}", lines))
         scen.append((f"st{i}", swap_kind(lines, "py", "canon")))
     parts = chunks([sim_suite.block(nm, l) for nm, l in scen], JOBS)
